@@ -53,7 +53,7 @@ idx_st = st.one_of(
     st.fixed_dictionaries({"t": st.sampled_from(["ints_nd", "ints_arr", "ints_list", "ints_arr32"]),
                            "ii": st.lists(st.integers(-40, 40), min_size=0, max_size=12),
                            "oob": st.integers(0, 9).map(lambda x: x == 0)}),
-    st.fixed_dictionaries({"t": st.just("empty")}),
+    st.fixed_dictionaries({"t": st.sampled_from(["empty", "empty_list"])}),     # np.array([]) / a python list with no entries
     # one persistent mask object per history, rewritten in place before each use (ndarray or wrapped in one Array)
     st.fixed_dictionaries({"t": st.sampled_from(["mask_reuse_nd", "mask_reuse_arr"]),
                            "bits": st.lists(st.booleans(), min_size=40, max_size=40)}),
@@ -163,6 +163,8 @@ def _osy_index(idx, n):
         return [int(i) for i in ni]
     if t == "mask_list":
         return [bool(b) for b in ni]          # a boolean mask given as a plain python list
+    if t == "empty_list":
+        return []                             # e.g. a list comprehension that matched nothing: selects no row
     return ni
 
 
@@ -352,8 +354,10 @@ def history(case, r):
             if raised is not None:
                 r.bad(["index-raises", type(raised).__name__], f"{where}: index {idx} on length {cur_n}: {raised!r}")
                 break
-            if idx["t"] not in ("int", "slice", "empty"):
+            if idx["t"] not in ("int", "slice", "empty", "empty_list"):
                 n_sel += 1
+            if idx["t"] == "empty_list":
+                r.label("idx_empty_python_list")
             if idx["t"] == "mask_list":
                 r.label("idx_mask_as_list")
             if idx["t"].startswith("mask_reuse"):
